@@ -170,6 +170,12 @@ class C19(Prop):
         r4 = T.af_invoke(["--qc-overlaps", "-i", "AGP"], stdin=other, in_fmt="AGP", qc=True)
         out["invocations"].append(r4)
         out["other_types"] = {"exit": r4["exit"], "pairs": conv(re.findall(pat, r4["err"]))}
+        # an AGP in a file whose extension reads as the OTHER format, with --input-format saying what it is:
+        # the option wins, the pairs are the same
+        (d / "asm.tpf2agp").write_text(buf.getvalue())
+        r5 = T.af_invoke(["--qc-overlaps", "-i", "AGP"], [(d / "asm.tpf2agp", buf.getvalue())], in_fmt="AGP", qc=True)
+        out["invocations"].append(r5)
+        out["option_wins"] = {"exit": r5["exit"], "pairs": conv(re.findall(pat, r5["err"]))}
         out["samename"] = []
         for args in (["--qc-overlaps", str(d / "v1" / "same.agp"), str(d / "v2" / "same.agp")],
                      ["--qc-overlaps", "--name", "given", str(d / "first.agp"), str(d / "v2" / "same.agp")],
@@ -279,6 +285,10 @@ class C19(Prop):
             wantsec = [[n, wantcli] for n in ("first", "second")] if wantcli else []
             if [[n, sorted(ps)] for n, ps in m["sections"]] != wantsec:
                 return f"asm-format on two files reported {m['sections']}, expected {wantsec}"
+            ow = c.get("option_wins")
+            if ow is not None and (ow["exit"] != 0 or sorted(ow["pairs"]) != wantcli):
+                return (f"asm-format -i AGP on an AGP file called asm.tpf2agp reported {ow['pairs']} (exit {ow['exit']}), "
+                        f"expected {wantcli}: --input-format must win over the extension")
             ot = c.get("other_types")
             if ot is not None and (ot["exit"] != 0 or sorted(ot["pairs"]) != wantcli):
                 return (f"with component types A/D/F/G/O/P instead of W on the sequence lines asm-format reported "
